@@ -438,6 +438,41 @@ pub fn main(args: &util::Args) {
             out.push_str(&o2);
         }
     }
+    // ---- hand-written ill-typed programs aimed at one diagnostic class of `Typer::unify` each (`gv unify` drives the
+    // same unifier directly; these rows show that every class is reachable from a source program).  The `ILL` row has
+    // the shape of the `illt:` rows (the message field holds ALL diagnostics joined by " | ", as everywhere in this
+    // stream); the extra `ILLU` row says whether a diagnostic of the aimed class is among them.
+    for (class, name, src) in ILL_UNIFY {
+        let id = format!("illu:{}:{}", class, name);
+        let kind = format!("unify-{}", class);
+        // a stack overflow in the typer kills this process: leave the name of the running program behind
+        let _ = std::fs::write(args.out.join("c03.progress"), format!("{}\t{}\t{}\n", id, kind, esc_line(src)));
+        let st = run_in(&dir, src);
+        let (outcome, stage, msg) = match &st.stop {
+            None => ("accepted", "", String::new()),
+            Some((k, stage, m)) => (if *k == "reject" { "rejected" } else { "panic" }, *stage, m.clone()),
+        };
+        *kinds_total.entry(kind.clone()).or_default() += 1;
+        writeln!(out, "{}\tSRC\t{}", id, esc_line(src)).unwrap();
+        writeln!(out, "{}\tILL\t{}\ttemplate\t{}\t{}\t{}", id, kind, outcome, stage, esc_line(&msg)).unwrap();
+        let classes: Vec<&str> = if outcome == "rejected" { msg.split(" | ").map(unify_class).collect() } else { Vec::new() };
+        let at = classes.iter().position(|c| c == class);
+        writeln!(
+            out,
+            "{}\tILLU\t{}\t{}\t{}\t{}",
+            id,
+            class,
+            if at.is_some() { "hit" } else { "miss" },
+            at.map(|i| i.to_string()).unwrap_or_default(),
+            classes.join(" ")
+        )
+        .unwrap();
+        if outcome == "accepted" {
+            let mut o2 = String::new();
+            emit(&id, None, &st, &mut o2);
+            out.push_str(&o2);
+        }
+    }
     // ---- hand-written ill-typed witnesses kept as files (corpus/C03/neg/*.gom): typer diagnostics no generated
     // program reaches (tools/coverage_audit.py, class b); each must be rejected by the typer
     {
@@ -497,6 +532,7 @@ pub fn main(args: &util::Args) {
     let _ = std::fs::remove_dir_all(&dir);
     let _ = std::fs::create_dir_all(&args.out);
     std::fs::write(args.out.join("c03.cases.tsv"), out).unwrap();
+    let _ = std::fs::remove_file(args.out.join("c03.progress"));
 }
 
 #[allow(dead_code)]
@@ -549,6 +585,67 @@ const ILL_TEMPLATES: &[(&str, &str, &str)] = &[
     ("dyn-no-impl", "arg-type", "trait Tr { fn m(Self) -> int32; }\nimpl Tr for int32 { fn m(self: int32) -> int32 { self } }\nfn main() -> unit { let d: dyn Tr = \"s\"; () }\n"),
     ("tuple-proj", "unknown-field", "fn main() -> unit { let t = (1, 2); string_println(int32_to_string(t.2)) }\n"),
 ];
+
+/// (class, name, program): ill-typed programs whose rejection carries a diagnostic of the given class of
+/// `Typer::unify` (`typer/unify.rs`); the classes `var-var` / `var-value` are unreachable (both sides are normalised
+/// before the union-find merge, so the merge never sees two different values)
+const ILL_UNIFY: &[(&str, &str, &str)] = &[
+    ("occurs", "self-apply", "fn main() -> unit { let f = |x| x(x); () }\n"),
+    ("occurs", "vec-push-self", "fn main() -> unit { let v = vec_new(); let w = vec_push(v, v); () }\n"),
+    ("occurs", "ref-set-self", "fn main() -> unit { let f = |r| ref_set(r, r); () }\n"),
+    ("occurs", "through-alias", "fn main() -> unit { let f = |x, y| { let z = if true { x } else { y }; x(y) }; () }\n"),
+    ("occurs", "through-alias-chain", "fn main() -> unit { let f = |a, b, c| { let p = if true { a } else { b }; let q = if true { b } else { c }; (c, 1) == a }; () }\n"),
+    ("occurs", "through-alias-array", "fn main() -> unit { let f = |a, b| { let p = if true { a } else { b }; let q = if true { [a, a] } else { b }; () }; () }\n"),
+    ("occurs", "indirect-two-bindings", "fn main() -> unit { let f = |a, b| { let p = if true { a } else { (b, 1) }; let q = if true { b } else { (a, 1) }; () }; () }\n"),
+    ("tuple-len", "let-annotation", "fn main() -> unit { let t: (int32, int32) = (1, 2, 3); () }\n"),
+    ("tuple-len", "argument", "fn f(t: (int32, int32)) -> int32 { t.0 }\nfn main() -> unit { string_println(int32_to_string(f((1, 2, 3)))) }\n"),
+    ("tuple-len", "pattern", "fn main() -> unit { let (a, b) = (1, 2, 3); () }\n"),
+    ("tuple-len", "nested", "fn f(t: (int32, (bool, bool))) -> int32 { t.0 }\nfn main() -> unit { string_println(int32_to_string(f((1, (true, false, true))))) }\n"),
+    ("array-len", "let-from-var", "fn main() -> unit { let a: [int32; 5] = [1, 2, 3, 4, 5]; let b: [int32; 3] = a; () }\n"),
+    ("array-len", "branches", "fn main() -> unit { let a = if true { [1, 2, 3] } else { [1, 2] }; () }\n"),
+    ("func-len", "closure-argument", "fn ap(f: (int32) -> int32) -> int32 { f(1) }\nfn main() -> unit { let r = ap(|a: int32, b: int32| a); () }\n"),
+    ("func-len", "function-value-argument", "fn ap(f: (int32) -> int32) -> int32 { f(1) }\nfn g(a: int32, b: int32) -> int32 { a }\nfn main() -> unit { let r = ap(g); () }\n"),
+    ("func-len", "closure-call", "fn main() -> unit { let f = |a: int32| a; let r = f(1, 2); () }\n"),
+    ("func-len", "returned-closure", "fn mk() -> (int32) -> int32 { |a: int32, b: int32| a }\nfn main() -> unit { let f = mk(); () }\n"),
+    ("ctor-name", "enum", "enum A { X }\nenum B { Y }\nfn f(a: A) -> unit { () }\nfn main() -> unit { f(B::Y) }\n"),
+    ("ctor-name", "struct", "struct P { x: int32 }\nstruct Q { x: int32 }\nfn f(p: P) -> int32 { p.x }\nfn main() -> unit { string_println(int32_to_string(f(Q { x: 1 }))) }\n"),
+    ("ctor-name", "generic-head", "enum Opt[T] { Non, Som(T) }\nenum Res[T] { Ok(T), Er }\nfn f(o: Opt[int32]) -> unit { () }\nfn main() -> unit { f(Res::Ok(1)) }\n"),
+    ("dyn-name", "argument", "trait T1 { fn m(Self) -> int32; }\ntrait T2 { fn k(Self) -> int32; }\nimpl T1 for int32 { fn m(self: int32) -> int32 { self } }\nimpl T2 for int32 { fn k(self: int32) -> int32 { self } }\nfn f(d: dyn T1) -> int32 { T1::m(d) }\nfn main() -> unit { let d: dyn T2 = 1; string_println(int32_to_string(f(d))) }\n"),
+    ("dyn-name", "let-annotation", "trait T1 { fn m(Self) -> int32; }\ntrait T2 { fn k(Self) -> int32; }\nimpl T1 for int32 { fn m(self: int32) -> int32 { self } }\nimpl T2 for int32 { fn k(self: int32) -> int32 { self } }\nfn main() -> unit { let d: dyn T2 = 1; let e: dyn T1 = d; () }\n"),
+    ("app-len", "enum-parameter-annotation", "enum Opt[T] { Non, Som(T) }\nfn f(o: Opt[int32, int32]) -> unit { () }\nfn main() -> unit { let o: Opt[int32] = Opt::Non; f(o) }\n"),
+    ("app-len", "struct-parameter-annotation", "struct Bx[T] { v: T }\nfn f(b: Bx[int32, bool]) -> unit { () }\nfn main() -> unit { f(Bx { v: 1 }) }\n"),
+    ("app-len", "return-annotation", "enum Opt[T] { Non, Som(T) }\nfn f() -> Opt[int32, int32] { Opt::Som(1) }\nfn main() -> unit { let o = f(); () }\n"),
+    ("param-name", "returned", "fn h[T, U](t: T, u: U) -> U { t }\nfn main() -> unit { let r: int32 = h(1, 2); () }\n"),
+    ("param-name", "struct-field", "struct Bx[T] { v: T }\nfn h[T, U](t: T, u: U) -> Bx[U] { Bx { v: t } }\nfn main() -> unit { let r = h(1, 2); () }\n"),
+    ("param-concrete", "returned-as-concrete", "fn h[T](x: T) -> int32 { x }\nfn main() -> unit { let r: int32 = h(1); () }\n"),
+    ("param-concrete", "literal-as-parameter", "fn h[T](x: T) -> T { let y: T = 1; y }\nfn main() -> unit { let r: int32 = h(1); () }\n"),
+    ("param-concrete", "closure-argument", "fn h[T](x: T) -> T { let g = |y: int32| y; g(x) }\nfn main() -> unit { let r: int32 = h(1); () }\n"),
+    ("not-equal", "prim-vs-prim", "fn f() -> int32 { \"s\" }\nfn main() -> unit { string_println(int32_to_string(f())) }\n"),
+    ("not-equal", "array-vs-tuple", "fn f(a: (int32, int32)) -> int32 { a.0 }\nfn main() -> unit { string_println(int32_to_string(f([1, 2]))) }\n"),
+    ("not-equal", "enum-vs-struct", "enum A { X }\nstruct P { x: int32 }\nfn f(a: A) -> unit { () }\nfn main() -> unit { f(P { x: 1 }) }\n"),
+    ("not-equal", "ref-vs-vec", "fn main() -> unit { let v: Vec[int32] = ref(1); () }\n"),
+    ("not-equal", "prim-vs-fn", "fn main() -> unit { let f: (int32) -> int32 = 1; () }\n"),
+    ("not-equal", "bare-generic-vs-applied", "enum Opt[T] { Non, Som(T) }\nfn f(o: Opt) -> unit { () }\nfn main() -> unit { let o: Opt[int32] = Opt::Non; f(o) }\n"),
+];
+
+/// the diagnostic class of one message of `Typer::unify` (by prefix; `other` = not a message of the unifier)
+fn unify_class(msg: &str) -> &'static str {
+    const TABLE: [(&str, &str); 12] = [
+        ("occurs check failed", "occurs"),
+        ("Failed to unify type variables", "var-var"),
+        ("Failed to unify type variable ", "var-value"),
+        ("Tuple types have different lengths", "tuple-len"),
+        ("Array types have different lengths", "array-len"),
+        ("Function types have different parameter lengths", "func-len"),
+        ("Constructor types are different", "ctor-name"),
+        ("Dyn trait types are different", "dyn-name"),
+        ("Constructor types have different argument lengths", "app-len"),
+        ("Type parameters are different", "param-name"),
+        ("Cannot unify type parameter", "param-concrete"),
+        ("Types are not equal", "not-equal"),
+    ];
+    TABLE.iter().find(|(p, _)| msg.starts_with(p)).map(|(_, c)| *c).unwrap_or("other")
+}
 
 /// concrete types for the rigid-parameter family: (type text, a value, code turning `r` of that type into a string)
 const CTYS: &[(&str, &str, &str)] = &[
